@@ -143,6 +143,14 @@ fn rsnap(r: &mut Rng, consistent: bool) -> String {
         if f[0] == "I" || f[0] == "R" { f[7] = r.below(1000).to_string(); }
         v.push(parse_order(&f.join("|")).unwrap());
     }
+    // a snapshot value is any vector of orders: half of the time not in timestamp order (a codec must
+    // not reorder, drop or merge them)
+    if r.chance(1, 2) {
+        for i in (1..v.len()).rev() {
+            let j = r.below(i as u64 + 1) as usize;
+            v.swap(i, j);
+        }
+    }
     let (vis, hid): (u64, u64) = v.iter().fold((0, 0), |a, o| (a.0 + o.visible_quantity(), a.1 + o.hidden_quantity()));
     if consistent {
         format!("{},{},{},{};{}", r.below(100000), vis, hid, v.len(), show_list(&v, show_order))
